@@ -453,12 +453,18 @@ class Builder:
                     s.value.value is None)
                 if not is_none:
                     self._expr(s.value, frame)
-                cls = 'F' if is_none else 'T'
+                # U: a value that is not known to be an object - no claim
+                # about it, the caller's test stays a test on that path
+                is_obj = fs.data.get('null_obj')
+                cls = 'F' if is_none else (
+                    'T' if is_obj is None or is_obj(s) else 'U')
                 if self.dangling:
                     n = self._emit('stmt', s, frame)
-                    n.extra['ret_class'] = 'N' if is_none else 'O'
+                    n.extra['ret_class'] = {'F': 'N', 'T': 'O',
+                                            'U': 'U'}[cls]
                     self._abrupt(fi, frame)
-                    fs.data['ret_' + cls].extend(self.dangling)
+                    fs.data.setdefault('ret_' + cls, []).extend(
+                        self.dangling)
                 self.dangling = []
                 return
             if fs.data.get('thread'):
@@ -821,10 +827,12 @@ class Builder:
         falls_off = True     # conservatively: the end of the body may be hit
         if not nones and not falls_off:
             return False
-        if not objs or not all(
-                obj(r.value) or (id(r) in guarded and
-                                 r.value.id not in stored) for r in objs):
+        if not objs:
             return False
+
+        def null_obj(r):
+            return obj(r.value) or (id(r) in guarded and
+                                    r.value.id not in stored)
         self._expr(e.func, frame)
         for a in e.args:
             self._expr(a.value if isinstance(a, ast.Starred) else a, frame)
@@ -832,19 +840,22 @@ class Builder:
             self._expr(k.value, frame)
         if not self.dangling:
             return True
-        o_edges, n_edges = self._inline(e, t, frame, res, thread='null')
+        self._null_obj_next = null_obj
+        o_edges, n_edges, u_edges = self._inline(e, t, frame, res,
+                                                 thread='null')
         outs = {}
-        for cls, edges in (('O', o_edges), ('N', n_edges)):
+        for cls, edges in (('O', o_edges), ('N', n_edges), ('U', u_edges)):
             if not edges:
                 outs[cls] = []
                 continue
             self.dangling = edges
             n = self._emit('stmt', s, frame)
-            n.extra['null_class'] = cls
+            if cls != 'U':
+                n.extra['null_class'] = cls
             outs[cls] = list(self.dangling)
-        self.dangling = outs['O'] + outs['N']
+        self.dangling = outs['O'] + outs['N'] + outs['U']
         self._null_pending = dict(name=s.targets[0].id, frame=frame,
-                                  O=outs['O'], N=outs['N'],
+                                  O=outs['O'], N=outs['N'], U=outs['U'],
                                   at=len(self.cfg.nodes))
         return True
 
@@ -862,9 +873,15 @@ class Builder:
                 e.comparators[0].value is None and \
                 isinstance(e.ops[0], (ast.Is, ast.IsNot)):
             self._null_pending = None
+            ut, uf = [], []
+            if p.get('U'):
+                # the continuation that carries no claim: an ordinary test
+                self.dangling = list(p['U'])
+                n = self._emit('test', e, frame)
+                ut, uf = [(n, 'T')], [(n, 'F')]
             if isinstance(e.ops[0], ast.Is):
-                return p['N'], p['O']
-            return p['O'], p['N']
+                return p['N'] + ut, p['O'] + uf
+            return p['O'] + ut, p['N'] + uf
         return None
 
     def _cond_call(self, e: ast.Call, frame):
@@ -1169,7 +1186,9 @@ class Builder:
         ce.extra['callee_frame'] = callee
         ce.extra['res'] = res
         fscope = Scope('func', t.func.node, callee, returns=[], root=False,
-                       call=e, thread=thread, ret_T=[], ret_F=[])
+                       call=e, thread=thread, ret_T=[], ret_F=[], ret_U=[],
+                       null_obj=getattr(self, '_null_obj_next', None))
+        self._null_obj_next = None
         self.stack.append(fscope)
         # parameter bindings
         f = t.func
@@ -1219,7 +1238,7 @@ class Builder:
             fscope.data['ret_F'].extend(self.dangling)
             self.stack.pop()
             outs = []
-            for cls in ('T', 'F'):
+            for cls in (('T', 'F', 'U') if thread == 'null' else ('T', 'F')):
                 edges = fscope.data['ret_' + cls]
                 if not edges:
                     outs.append([])
@@ -1227,11 +1246,17 @@ class Builder:
                 cr = self._new('call_return', e, frame)
                 cr.extra['target'] = t
                 cr.extra['callee_frame'] = callee
-                cr.extra['ret_class'] = cls
+                if thread == 'null':
+                    # None / object / unknown: says nothing about truthiness
+                    cr.extra['null_ret'] = cls
+                else:
+                    cr.extra['ret_class'] = cls
                 for a, l in edges:
                     self._edge(a, l, cr)
                 outs.append([(cr, 'next')])
             self.dangling = []
+            if thread == 'null':
+                return outs[0], outs[1], outs[2]
             return outs[0], outs[1]
         rets = self.dangling + fscope.data['returns']
         self.stack.pop()
